@@ -20,12 +20,12 @@ for r in R["results"]:
     rows.append((r["kind"], r["name"], meta.get("property") or "-", summ[:230], *cells, first))
 with open(f"{V}/seeded/MATRIX.md", "w") as f:
     f.write(f"# Which quick check catches which change (VERIF_SEED={R['seed']})\n\n"
-            "`seeded/*`: breaking changes (must be caught by at least one claimed check); `quiet/*`: property-preserving "
+            "`seeded/*`: breaking changes from independent sub-agents, each confirmed (must be caught by at least one claimed check); `classic/*`: the textbook breakages named in the property texts, written by the main session (some of them are also caught by the existing tests, see their meta.json); `quiet/*`: property-preserving "
             "changes (all three checks must stay quiet). Cells: exit meaning (violating runs / runs executed).\n\n"
             "| kind | id | written for | summary | C04 | C10 | C17 | first clause reported |\n|---|---|---|---|---|---|---|---|\n")
     for row in sorted(rows):
         f.write("| " + " | ".join(str(c) for c in row) + " |\n")
-    s = [r for r in R["results"] if r["kind"] == "seeded"]
+    s = [r for r in R["results"] if r["kind"] in ("seeded", "classic")]
     q = [r for r in R["results"] if r["kind"] == "quiet"]
-    f.write(f"\nseeded: {sum(1 for r in s if r.get('detected'))}/{len(s)} detected; quiet: {sum(1 for r in q if r.get('quiet'))}/{len(q)} quiet.\n")
+    f.write(f"\nseeded+classic: {sum(1 for r in s if r.get('detected'))}/{len(s)} detected; quiet: {sum(1 for r in q if r.get('quiet'))}/{len(q)} quiet.\n")
 print("written")
